@@ -35,9 +35,10 @@ package routine
 //@ object RoutineContainer
 //@   props C04 C05 C14 C13
 //@   lock bcast.mtx
-//@   guarded ctx, routine, runningRoutine.ctx, runningRoutine.ctxCancel, runningRoutine.exitedCh, runningRoutine.err, runningRoutine.success, runningRoutine.exited, runningRoutine.deferRetry
-//@   immutable exitedCbs, retryBo, runningRoutine.r, runningRoutine.routine
+//@   guarded ctx, routine, runningRoutine.ctx, runningRoutine.ctxCancel, runningRoutine.exitedCh, runningRoutine.err, runningRoutine.success, runningRoutine.exited, runningRoutine.deferRetry, StateRoutineContainer.s, StateRoutineContainer.stateRoutine
+//@   immutable exitedCbs, retryBo, runningRoutine.r, runningRoutine.routine, StateRoutineContainer.rc, StateRoutineContainer.compare
 //@   records runningRoutine via r
+//@   records StateRoutineContainer via rc
 //@   ghost lastCh: ref
 //@   inv H1: this.lastCh != nil ==> xowner(this.lastCh) == this
 //@   inv H2: this.routine != nil ==> this.routine.r == this && this.routine.routine != nil && (this.routine.exitedCh == this.lastCh || (this.routine.exitedCh == nil && (this.lastCh == nil || closed(this.lastCh))))
@@ -161,14 +162,10 @@ package routine
 //@ closure (*runningRoutine).execute$1$1$1
 //@   props C04 C14
 //
-// StateRoutineContainer: s.bcast guards s and stateRoutine; rc and compare are immutable. Every state
-// change hands a closure that captured the new state to rc.setRoutineLocked.
-//
-//@ object StateRoutineContainer
-//@   props C04 C05 C13
-//@   lock bcast.mtx
-//@   guarded s, stateRoutine
-//@   immutable rc, compare
+// StateRoutineContainer: its fields s and stateRoutine are guarded by the lock of its RoutineContainer
+// (rc.bcast.mtx; declared above as records of RoutineContainer via rc); rc and compare are immutable.
+// Every state change hands a closure that captured the new state to rc.setRoutineLocked in the same
+// critical section.
 //
 //@ func (*StateRoutineContainer).GetState
 //@   props C05
@@ -189,7 +186,7 @@ package routine
 //@ func (*StateRoutineContainer).setStateLocked
 //@   props C04 C05
 //@   inline
-//@   opt holds = bcast.mtx
+//@   opt holds = rc.bcast.mtx
 //@   opt frame = skip
 //@   opt pure-callbacks = compare
 //@   requires s != nil && s.rc != nil && broadcast != nil
@@ -213,7 +210,7 @@ package routine
 //@ func (*StateRoutineContainer).updateStateRoutineLocked
 //@   props C04 C05
 //@   inline
-//@   opt holds = bcast.mtx
+//@   opt holds = rc.bcast.mtx
 //@   opt frame = skip
 //@   requires s != nil && s.rc != nil && broadcast != nil
 //
